@@ -74,4 +74,13 @@ var props = []PropSpec{
 		Stub: []string{"dsim/simos wraps real files (fault layer); per-prefix preallocation hint lowered from 16 000 to 4 (no semantic effect)"},
 		Assumptions: []string{"multisets are sampled up to a few hundred signatures in the quick tier; the 200 000-element end of the quantifier is not reached", "only reported disk faults are injected"},
 	},
+	{
+		ID: "C16", Pkg: "./split-car-fetcher", Scenario: "C16R", Level: "exploration",
+		Quick:    Tier{Runs: 3000, WallS: 60},
+		Thorough: Tier{Runs: 150000, WallS: 600},
+		Rule: "reader half: one run = one piece-size vector (0..14 pieces, each with its own header 0..5, content 0..6 bytes dense or up to 70 000 sparse, optional padding) behind simulated piece readers that show every legal ReaderAt variant, whose creators finish in a tape-chosen order under the real limit-10 errgroup of NewSplitCarReader, with 1..3 concurrent readers probing every (offset,length) when the whole is <= 48 bytes and boundary-biased samples otherwise, against the model concatenation; 25% of runs make one piece fail from a tape-chosen content offset, 10% make one creator fail; distinct = distinct (size vector, fault placement, schedule signature)",
+		Real: []string{"split-car-fetcher/fetcher.go (NewSplitCarReader, SplitCarReader, MultiReaderAt)"},
+		Stub: []string{"piece readers are in-memory byte slices (ReaderAtCloserSize)"},
+		Assumptions: append([]string{"the exhaustive '<= 4 pieces x 0..6 bytes x every (offset,length)' enumeration of the quantifier is sampled, not enumerated (runs with a total of at most 48 bytes do probe every offset/length; probe c16.exhaustive-offset-length counts them)", "the splitter half of the property (cmd-car-split.go on generated epoch CARs) is checked by the server-engine part when present"}, commonAssumptions...),
+	},
 }
